@@ -28,7 +28,7 @@ def finish_leaves(I):
         progressed = False
         for (d, args, st) in todo:
             sets = tuple(I.arg_set(st, a) for a in args)
-            key = (d, tuple(None if s is None else s.iv for s in sets))
+            key = (d, tuple(None if s is None else (s.iv if isinstance(s, IntSet) else ("len", s[1].iv)) for s in sets))
             if key in done:
                 continue
             done.add(key)
